@@ -439,3 +439,45 @@ func c10TypeName(c *core.Ctx, r *core.Reporter) {
 	}
 	r.Check(ok, "__typename/resolver", at, "__typename resolves to Info.ParentType.Name()", "__typename no longer returns the name of Info.ParentType (the runtime object type)")
 }
+
+func init() {
+	register(&core.Rule{Name: "C10/PAIR-append", Props: []string{"C10", "C11"}, Min: 1,
+		Doc: "every successful exit of Schema.AppendType passes through the rebuild and re-check of the implementation tables", Run: c10Append})
+}
+
+// c10Append: AppendType pulls types in transitively (typeMapReducer), so an appended union, list or interface can bring
+// in a new object that implements an interface already in the schema. The implementation / possible-type tables and
+// the implements-check are only brought up to date by AddImplementation; an exit of AppendType that reports success
+// without having gone through it leaves a schema that differs from the one NewSchema would have built up front.
+func c10Append(c *core.Ctx, r *core.Reporter) {
+	fn := c.Func("", "Schema.AppendType")
+	add := c.Func("", "Schema.AddImplementation")
+	if fn == nil || add == nil {
+		r.Unknown("Schema.AppendType/rebuild", token.NoPos, "AppendType or AddImplementation not found")
+		return
+	}
+	cut := map[*ssa.BasicBlock]bool{}
+	for _, s := range core.CallsTo(fn, add, false) {
+		cut[s.Block()] = true
+	}
+	if len(cut) == 0 {
+		r.Bad("Schema.AppendType/rebuild", fn.Pos(), "AppendType never calls AddImplementation: interfaces of appended types get no possible types and are not checked")
+		return
+	}
+	reach := core.ReachableAvoiding(fn.Blocks[0], cut)
+	var bad *ssa.Return
+	for _, ret := range core.Returns(fn) {
+		if !reach[ret.Block()] || cut[ret.Block()] || len(ret.Results) != 1 {
+			continue
+		}
+		// an exit that skips the rebuild is fine only if it reports the error that made it stop
+		if core.IsNilConst(core.RetVal(ret, 0)) {
+			bad = ret
+		}
+	}
+	if bad != nil {
+		r.Bad("Schema.AppendType/rebuild", bad.Pos(), "AppendType has an exit that returns nil without having called AddImplementation: the appended type may have pulled in (through a union member, a list element, a field type) an object that implements an existing interface, and that object is then missing from the interface's possible types and is never checked against it — the schema differs from the one built with the same types up front")
+	} else {
+		r.OK("Schema.AppendType/rebuild", fn.Pos(), "every exit that reports success goes through AddImplementation")
+	}
+}
